@@ -118,6 +118,8 @@ func c05BFS(r *Run, depth, shard int) {
 				}
 				as = append(as,
 					MkReplaceDeposit(depositor, d, att, distinct32(0x26), distinct32(0x27), "first deposit"),
+					// an over-long new recipient whose excess bytes would land on the amount field (2^200) if it were copied unchecked
+					MkReplaceDeposit(depositor, d, att, distinct32(0x26), append(distinct32(0x27), pad32(bigPow2(200).Bytes())...), "first deposit, 64-byte new recipient"),
 					MkReplaceDeposit(other, d, att, distinct32(0x26), distinct32(0x27), "first deposit (not the depositor)"),
 					MkReplaceMessage(depositor, d, att, []byte("hijack"), distinct32(0x23), "first deposit via replace-message"))
 			}
